@@ -66,9 +66,6 @@ AsPaths    == { <<>>, <<65001>>, <<65002>>, <<65001, 65100>>, <<65002, 65001>>, 
                 <<65100, 65002, 65001>>, <<65003>>, <<65003, 65100>> }
 Comms      == {"65001:100", "65001:200", "65002:100", "65100:10"}
 ExtComms   == {"rt:65001:100", "soo:65001:100", "rt:65002:200"}
-(* value part of an ext-community member (the text after the subtype) *)
-ExtValue   == [m \in ExtComms |-> CASE m = "rt:65001:100" -> "65001:100" [] m = "soo:65001:100" -> "65001:100"
-                                     [] m = "rt:65002:200" -> "65002:200"]
 ExtLB      == "lb:65001:125000"      \* non-transitive; only ever carried by routes, never in sets
 LargeComms == {"65001:1:1", "65001:1:2", "65002:2:2"}
 NextHops4  == {"192.0.2.1", "192.0.2.2"}
